@@ -64,6 +64,15 @@ CHECKS['C15'] = dict(text='Bounded symbolic execution of SelectStatement::take /
                   'taken = before, left-behind = new(), clone = source and unaffected by later changes to the other copy, a clear removes exactly its clause.',
              note=TRUST_M + 'Schema-statement builders (Table*/Index*/ForeignKey* take()) are not covered by this check (see DESIGN.md).',
              technique='symbolic execution of rustc MIR (field-subset and operation forking, symbolic payloads) with structural and textual comparison', ref='6/C15', engine=ENGINE_M)
+CHECKS['C01'] = dict(text='Bounded symbolic execution of build() through the crate own SqlWriterValues and the whole prepare_* renderer of the three backends over statement families (SELECT / INSERT / UPDATE / DELETE / WITH) whose optional clauses - sub-selects in FROM / IN / UNION / CTE, VALUES lists of arity 1..4, joins, '
+                  'CASE, custom templates incl. a Postgres template that reorders $2/$1, ORDER BY FIELD, NULLS emulation, LIMIT/OFFSET, window frames, upsert, RETURNING - are chosen by the engine (all combinations within each toggle group) and whose values are distinct symbolic terms: '
+                  'on every path a reference scanner counts the placeholders outside quoted text (bare ? / $1..$n ascending) and a marker next to each placeholder identifies the value it stands for; z3 decides that the i-th bound value is that term and that no value is lost or duplicated.',
+             note=TRUST_M + 'Oracle: scan_placeholders() / marker_of() in props/families.py. The documented MySQL NULLS FIRST/LAST emulation and ORDER BY FIELD on an expression render the expression (and its value) more than once by design.',
+             technique='symbolic execution of rustc MIR (clause-combination forking, symbolic values) with term-identity assertions decided by z3', ref='6/C01', engine=ENGINE_M)
+CHECKS['C02'] = dict(text='On the same families, with payloads of ten value types symbolic (full-width integers, chars, bytes, bool, NULL): z3 proves on every path that to_string() equals build() with each placeholder replaced by value_to_string() of its value (element-wise over symbolic text), '
+                  'that the seven rendering entry points return the same SQL and values, that rendering twice gives the same result and that the statement is structurally unchanged (crate PartialEq) after rendering.',
+             note=TRUST_M + 'Execution on a live engine ("return the same rows") is outside the technique; textual identity modulo literal substitution implies it. The correctness of the literal itself is C03.',
+             technique='symbolic execution of rustc MIR with element-wise symbolic text equality decided by z3', ref='6/C02', engine=ENGINE_M)
 NA = {}
 def load_props():
     return [json.loads(l) for l in open(os.path.join(V, 'properties.jsonl'))]
